@@ -111,6 +111,17 @@ def order_outcomes(cid):
     return ['orders', res]
 
 
+def _raw_spans(v):
+    if isinstance(v, list):
+        if len(v) == 4 and v[0] == 'o' and isinstance(v[3], list) and v[3] and v[3][0] == 'raw':
+            return v[3]
+        for x in v:
+            r = _raw_spans(x)
+            if r:
+                return r
+    return None
+
+
 def history_worker(case):
     """Run a history (list of steps) in one worker process and report every outcome."""
     import sys
@@ -124,10 +135,18 @@ def history_worker(case):
     rt.drain()
     rt.enable(bool(case.get('trace')))
 
-    def one(entry, text, pos, full):
+    def one(entry, text, pos, full, keep_spans=False):
         fn = mod.parse if entry == 'start' else getattr(mod, entry).parse
         d0 = rt.open_depth()
-        o = realrun.call_parse(mod, fn, text, pos, full)
+        o = realrun.call_parse(mod, fn, text, pos, full, spans=True)
+        if o[0] == 'ok':
+            # whatever else is going on (other threads, an enclosing or nested parse): every instance of a returned
+            # result carries final positions (index, line, column), never the raw offsets of the parse functions
+            raw = _raw_spans(o[1])
+            if raw:
+                o = ['exc', 'RawPositions', 'an instance of the result carries %r instead of positions' % (raw,)]
+            elif not keep_spans:
+                o[1] = realrun.strip_obs_spans(o[1])
         if o[0] in ('exc', 'timeout'):
             rt.abort_open(d0)
         return o
@@ -167,7 +186,7 @@ def history_worker(case):
             elif kind == 'nested2':
                 out.append(one('Outer2', step[1], 0, True))
             elif kind == 'nested3':
-                out.append(one('Outer3', step[1], 0, True))
+                out.append(one('Outer3', step[1], 0, True, keep_spans=True))
             elif kind == 'orders':
                 out.append(order_outcomes(case['id']))
             elif kind == 'accum':
@@ -471,10 +490,14 @@ def run(chk):
                 t = step[1]
                 parts = t.split(';')
 
-                def pair(x):
+                def pair(x, off):
+                    # positions: of the outer text for the outer parse's own instances (offset `off`), of the nested
+                    # text (offset 0) for the instance the nested parse returned; all on line 1
                     l, r = x.split('=')
-                    return ['o', 'Pair', [['l', ['s', T(l)]], ['r', ['s', T(r)]]]]
-                want = ['ok', ['l', [pair(parts[0]), pair(parts[1]), pair(parts[2]) if len(parts) > 2 else ['none']]], len(t)]
+                    return ['o', 'Pair', [['l', ['s', T(l)]], ['r', ['s', T(r)]]],
+                            [[off, 1, off + 1], [off + len(x) - 1, 1, off + len(x)]]]
+                want = ['ok', ['l', [pair(parts[0], 0), pair(parts[1], 0),
+                                     pair(parts[2], len(parts[0]) + len(parts[1]) + 2) if len(parts) > 2 else ['none']]], len(t)]
                 chk.count(['nested3', t], True)
                 if o[:3] != want:
                     chk.violation('nested parse whose result (a class instance) becomes part of the outer result: '
